@@ -105,12 +105,17 @@ main(void)
 			ent_push(hc_tok[2]);
 			put_result(alen != CRYPTO_DH_PRIVLEN ? -1 : crypto_dh_generate_pub(pub, a), pub, CRYPTO_DH_PUBLEN);
 			free(a);
-		} else if (hc_is("compute", 3)) {
+		} else if (hc_is("compute", 3) || (hc_is("compute", 4) && strcmp(hc_tok[4], "inplace") == 0)) {
+			/* `inplace`: the key overwrites the buffer the peer's value was received in (no `restrict` forbids it) */
+			int inplace = (hc_ntok == 5);
+			uint8_t * out;
+
 			a = hc_unhex(hc_tok[1], &alen);
 			b = hc_unhex(hc_tok[2], &blen);
 			ent_push(hc_tok[3]);
+			out = (inplace && alen == CRYPTO_DH_PUBLEN) ? a : key;
 			put_result((alen != CRYPTO_DH_PUBLEN || blen != CRYPTO_DH_PRIVLEN) ? -1 :
-			    crypto_dh_compute(a, b, key), key, CRYPTO_DH_KEYLEN);
+			    crypto_dh_compute(a, b, out), out, CRYPTO_DH_KEYLEN);
 			free(a);
 			free(b);
 		} else if (hc_is("generate", 2)) {
